@@ -102,7 +102,7 @@ class Histories(Facet):
     reps = ("tree", "ge", "sge", "dsge", "stack")
 
     def budget(self, tier):
-        return (40, 8) if tier == "quick" else (400, 16)
+        return (120, 8) if tier == "quick" else (500, 16)
 
     def strategy(self, tier):
         return histories(self.reps)
